@@ -875,7 +875,7 @@ class MembersType(Type):
                     raise e
                 values[member.name] = value
             elif member.has_default():
-                values[member.name] = member.default
+                values[member.name] = member.get_default()
 
         return values
 
